@@ -73,7 +73,7 @@ def gen_plan(rng, prop):
             sub = [] if shape == "empty" else idx if shape == "full" else idx[:1] if shape == "single" else \
                 idx[:rng.randint(1, len(names))]
             ops.append({"op": "impute", "subset": sub, "xt": 100000 + len(ops), "n": rng.randint(1, 4),
-                        "stype": rng.choice(["list", "set", "tuple"]), "rs": rng.getrandbits(48),
+                        "stype": rng.choice(["list", "set", "tuple", "list", "set", "tuple", "gen"]), "rs": rng.getrandbits(48),
                         "same_object": rng.random() < 0.3})
         elif cfg["explainer"]:
             t += 1
@@ -311,6 +311,9 @@ def run_tree_plan(plan, c01=False):
                 S = [names[j] for j in op["subset"]]
                 subset = list(S) if op["stype"] == "list" else set(S) if op["stype"] == "set" else tuple(S)
                 subset_before = list(subset)
+                if op["stype"] == "gen":         # "any iterable": walkable once
+                    subset = (f_ for f_ in list(S))
+                    probe("one_shot_iterable_subset")
                 snap_before = snapshot_reservoirs(storage)
                 len_before = len(storage)
                 preds = imputer.impute(subset, x, op["n"])
@@ -330,7 +333,7 @@ def run_tree_plan(plan, c01=False):
                     return v
                 if x != x_before or list(x.keys()) != list(x_before.keys()):
                     return viol("instance-modified", "%r -> %r" % (x_before, x), i)
-                if sorted(map(repr, subset)) != sorted(map(repr, subset_before)):
+                if op["stype"] != "gen" and sorted(map(repr, subset)) != sorted(map(repr, subset_before)):
                     return viol("subset-modified", "%r -> %r" % (subset_before, list(subset)), i)
                 if snapshot_reservoirs(storage) != snap_before or len(storage) != len_before:
                     return viol("storage-modified", "storage changed during impute", i)
